@@ -198,6 +198,10 @@ class CallMixin:
         s = self.ev_typed(args[0], t, st) if not args[0].get("isnil") else self.zero_value(t)
         if isinstance(s, SliceV) and s.lv is not None:
             raise Unsupported("append to array-backed slice")
+        if self.acc_mode and not e.get("Ellipsis") and is_scalar_type(et):
+            if self.acc_decode(s.rid) is not None:
+                vals = [self.ev_assign(a, et, st) for a in args[1:]]
+                return self.acc_append(s, vals)
         old_arrs = self.region_arrays(st, s)
         if e.get("Ellipsis"):
             src = self.ev(args[1], st)
@@ -513,9 +517,11 @@ class CallMixin:
         self.frames.append(fr)
         self.call_depth += 1
         saved_label = getattr(self, "pending_label", None)
+        self.in_loop += 1   # inlined bodies always join their paths (path splitting is for the function under proof)
         try:
             out = self.ex_block(node["Body"]["List"], st)
         finally:
+            self.in_loop -= 1
             self.call_depth -= 1
             self.frames.pop()
         rets = list(fr.rets)
